@@ -198,6 +198,8 @@ def _models(first=None):
             return [SX.Ref(r.cell, tuple(r.projs) + (("ci", i, False),)) for i in range(len(d.fields))]
         if isinstance(d, SX.Obj) and d.adt == "array" and not isinstance(v, SX.Ref):
             return [d.fields[i] for i in sorted(d.fields)]        # a vector consumed by value
+        if isinstance(d, SX.Obj) and isinstance(d.adt, str) and d.adt.endswith("ops::range::Range") and _isint(d.fields.get(0)) and _isint(d.fields.get(1)):
+            return list(range(d.fields[0], d.fields[1]))           # a..b as an iterator
         return _drain(ex, v)
 
     _PLAIN = ("array", "pyiter", "tuple", "closure", "fn", "()", None)
